@@ -53,12 +53,12 @@ FLAGS = {
     "O2_debug": (["-O2"], True),
 }
 
-LITERALS = {"lit2": 2.0, "lit2_eps": 2.0 + 1e-10, "lit2_ulp": 2.0000000000000004, "lit3": 3.0}
+LITERALS = {"lit2": 2.0, "lit2_eps": 2.0 + 1e-10, "lit2_ulp": 2.0000000000000004, "lit3": 3.0, "lit4": 4.0, "lit5": 5.0}
 
 # request templates of the C13 algebra
 REQ_FORMS = ["mass_lit2", "mass_lit2_eps", "mass_lit2_ulp", "mass_lit3", "stokes", "quad_mass", "two_forms", "prism",
              "form_two_mesh"]
-REQ_EXPRS = ["expr_tri", "expr_int", "expr_two_mesh"]
+REQ_EXPRS = ["expr_tri", "expr_int", "expr_two_mesh", "expr_lit2", "expr_lit3", "expr_lit4", "expr_lit5"]
 # requests whose objects live on two ufl.Mesh objects (named under every seed and several id offsets)
 REQ_TWO_MESH = ["form_two_mesh", "expr_two_mesh"]
 
